@@ -36,6 +36,7 @@ import qcore
 
 from .boolability import get_boolability
 from .extensions import reveal_type
+from .predicates import _PROMOTED_TYPES
 from .safe import safe_equals, safe_issubclass
 from .value import (
     NO_RETURN_VALUE,
@@ -356,12 +357,23 @@ class Constraint(AbstractConstraint):
                         yield value
                     elif safe_issubclass(self.value, inner_value.typ):
                         yield TypedValue(self.value)
+                    else:
+                        # A float may be an int at runtime (and a complex a float or int).
+                        for promoted in _PROMOTED_TYPES.get(inner_value.typ, ()):
+                            if safe_issubclass(promoted, self.value):
+                                yield TypedValue(promoted)
+                            elif safe_issubclass(self.value, promoted):
+                                yield TypedValue(self.value)
                     # TODO: Technically here we should infer an intersection type:
                     # a type that is a subclass of both types. In practice currently
                     # _constrain_value() will eventually return NoReturn.
                 else:
                     if not safe_issubclass(inner_value.typ, self.value):
                         yield value
+                    else:
+                        for promoted in _PROMOTED_TYPES.get(inner_value.typ, ()):
+                            if not safe_issubclass(promoted, self.value):
+                                yield TypedValue(promoted)
             elif isinstance(inner_value, SubclassValue):
                 if not isinstance(inner_value.typ, TypedValue):
                     yield value
@@ -385,7 +397,9 @@ class Constraint(AbstractConstraint):
                     if inner_value.val is self.value:
                         yield value
                 elif isinstance(inner_value, TypedValue):
-                    if isinstance(self.value, inner_value.typ):
+                    if isinstance(self.value, inner_value.typ) or isinstance(
+                        self.value, _PROMOTED_TYPES.get(inner_value.typ, ())
+                    ):
                         yield known_val
                 elif isinstance(inner_value, SubclassValue):
                     if (
